@@ -43,11 +43,58 @@ Definition is_alpha (c : ascii) : bool :=
   ((65 <=? n) && (n <=? 90)) || ((97 <=? n) && (n <=? 122)).
 
 (* for (c = buf; *c; c++) if (isalpha( *c)) { *c = marker; break; }
-   if (! *c) { append marker, '0' } *)
-Fixpoint sx_mark (marker : ascii) (s : string) : string :=
+   if (! *c) { [if (c > buf && c[-1] == '.') *c++ = '0';]  append marker, '0' }
+   The bracketed statement exists since /repo 5586a2c ("123." + marker is not a float
+   token for the reader); [pad] says whether the current source has it
+   (XP.sx_pad_point, parsed from sexpr.c on every run). [prev_point]: c > buf && c[-1] == '.' *)
+Fixpoint sx_mark_aux (pad : bool) (marker : ascii) (prev_point : bool) (s : string) : string :=
   match s with
-  | EmptyString => String marker "0"%string
-  | String c t => if is_alpha c then String marker t else String c (sx_mark marker t)
+  | EmptyString =>
+      ((if pad && prev_point then "0" else "") ++ String marker "0")%string
+  | String c t =>
+      if is_alpha c then String marker t
+      else String c (sx_mark_aux pad marker (Ascii.eqb c "."%char) t)
+  end.
+Definition sx_mark_gen (pad : bool) (marker : ascii) (s : string) : string :=
+  sx_mark_aux pad marker false s.
+(* the writer of the current source *)
+Definition sx_mark (marker : ascii) (s : string) : string := sx_mark_gen XP.sx_pad_point marker s.
+
+(* ---- sexpr.c's scanner: the float branch of the "potential number" rules for a token
+   that contains a decimal point (every text DFloatSprint produces has one: '#' flag):
+       [sign] {digit}* '.' {digit}+ [ marker [sign] {digit}+ ]
+   marker is one of XP.sx_expt_markers ("esfdlESFDL").  Anything else with digits is a
+   "meaningless potential number" (read error). *)
+Definition is_digit (c : ascii) : bool :=
+  let n := Z.of_nat (nat_of_ascii c) in (48 <=? n) && (n <=? 57).
+Definition is_sign (c : ascii) : bool := Ascii.eqb c "-"%char || Ascii.eqb c "+"%char.
+Fixpoint mem_ascii (c : ascii) (s : string) : bool :=
+  match s with EmptyString => false | String d t => Ascii.eqb c d || mem_ascii c t end.
+Definition is_expt_marker (c : ascii) : bool := mem_ascii c XP.sx_expt_markers.
+
+Fixpoint skip_digits (s : string) : string :=
+  match s with
+  | String c t => if is_digit c then skip_digits t else s
+  | EmptyString => EmptyString
+  end.
+Definition starts_digit (s : string) : bool :=
+  match s with String c _ => is_digit c | EmptyString => false end.
+Definition strip_sign (s : string) : string :=
+  match s with String c t => if is_sign c then t else s | EmptyString => s end.
+
+Definition sx_exponent_ok (s : string) : bool :=
+  let s := strip_sign s in
+  starts_digit s && String.eqb (skip_digits s) ""%string.
+
+Definition sx_float_token (s : string) : bool :=
+  match skip_digits (strip_sign s) with
+  | String "."%char t =>
+      starts_digit t &&
+      match skip_digits t with
+      | EmptyString => true
+      | String m u => is_expt_marker m && sx_exponent_ok u
+      end
+  | _ => false
   end.
 
 (* ---- reader for the texts the zero case can produce ----
